@@ -277,7 +277,7 @@ PROPS = {
         "streams": ["mut", "rand", "exh", "utf8", "big"],
         "disagreement_is_violation": True,
         "rule": "dec requests for every catalogue type on four byte-string streams: mutations of valid encodings (bit flips, boundary bytes, truncation, extension, count tampering at the front and at inner positions with {0,1,2,63..65,2^14-1,2^14,2^30-1,2^30,2^32-2,2^32-1}, splices, insert/delete), random strings (tag-biased), exhaustive strings of length <=1 for all types and <=2 for small-alphabet types (boundary alphabet otherwise), and the UTF-8 stream (all 1-2 byte strings, 3-byte strings with lead E0..EF x all second bytes, boundary 4-byte forms); every call in catch_unwind. non-trivial = distinct request whose model answer is not `err`",
-        "level_text": "Proved in Lean for every byte string: the modelled decoder is total (kernel-accepted recursion) and never panics (the unreachable!/assert!/UNEXPECTED ERROR sites are dead); it consumes a prefix only; for every wire-canonical type (all but maps/sets/heaps/bit sequences) decode bs = (ok v, rest) IFF wf v and bs = SCALE-encoding(v) ++ rest - the decoder accepts exactly the SCALE language; each rejection the property names is a theorem (bad tags for bool/Option/Result/OptionBool, unknown variant index, zero NonZero, nanos >= 10^9, invalid UTF-8, non-minimal/over-wide compact, > 2^29-1 bits, primitive count exceeding the data). The model is tied to the crate on ~10^5 hostile and random strings per run incl. an exhaustive-prefix UTF-8 stream.",
+        "level_text": "Proved in Lean for every byte string: the modelled decoder is total (kernel-accepted recursion) and never panics (the unreachable!/assert!/UNEXPECTED ERROR sites are dead); it consumes a prefix only; for every wire-canonical type (all but maps/sets/heaps/bit sequences) decode bs = (ok v, rest) IFF wf v and bs = SCALE-encoding(v) ++ rest - the decoder accepts exactly the SCALE language; for EVERY type without bit sequences, incl. maps/sets/heaps at any nesting, decode bs = (ok v, rest) IFF bs = SCALE-encoding(raw) ++ rest for some well-formed raw and v = raw order-normalised (heaps sorted, maps/sets rebuilt by from_iter: any order and duplicates accepted, later entry wins) - via the theorem that such a decoder IS the decoder of the same type with plain sequences followed by normalisation, on every input; bit sequences: accepted inputs are exactly count <= 2^29-1 plus ceil(n/w) words of any content, value = first n unpacked bits (padding not inspected); each rejection the property names is a theorem (bad tags for bool/Option/Result/OptionBool, unknown variant index, zero NonZero, nanos >= 10^9, invalid UTF-8, non-minimal/over-wide compact, > 2^29-1 bits, primitive count exceeding the data). The model is tied to the crate on ~10^5 hostile and random strings per run incl. an exhaustive-prefix UTF-8 stream.",
         "level_note": "Known finding F5 (derived Decode on a type cycle that consumes no byte per level never returns) is probed in a process of its own and reported as KNOWN-FINDING; the model's types are finite trees, so such a type has no descriptor - that is the point the theorems exclude. Trusted: as C01. utf8Valid is the model's own UTF-8 automaton; its agreement with core::str::from_utf8 is established by the utf8 stream, not by proof. Out-of-bounds reads are not expressible in the model (the slice bounds check is modelled). Non-productive recursive types (finding F5) have no finite unfolding and are outside the model. For maps/sets/heaps/bit sequences only soundness (round trip of the normalised value), not the iff, is proved: their documented non-canonical acceptances (unsorted/duplicate entries, heap order, padding bits) are by design.",
         "trusted_base": COMMON_TB + ["core::str::from_utf8 (contract: utf8Valid), checked on the utf8 stream"],
         "assumptions": ["recursive derived types are unfolded deeper than the input is long"],
